@@ -971,6 +971,10 @@ pub const MODULE_STATES: &[(&str, &str)] = &[
     ("truncated-utf8-3", ""),
     ("truncated-utf8-4", ""),
     ("bad-continuation", ""),
+    // UTF-16 files (byte-order mark first): not valid UTF-8, whatever their length
+    ("utf16le-odd", ""),
+    ("utf16be-odd", ""),
+    ("utf16le-even", ""),
     // refers to a name of the importer (the imported file is checked on top of the importer's scope
     // AT THE POSITION of the import): no claim about its names unless the form defines `outer_x`
     ("uses-importer-name", "y := outer_x + 1"),
@@ -1015,6 +1019,13 @@ pub const IMPORT_FORMS: &[&str] = &[
     "outer_x := 1; { outer_x := 2; m := import \"p\"; m.y }",
     "outer_x := \"top\"; f := (outer_x: int) -> int { m := import \"p\"; return m.y }; f(5)",
     "k := mod { outer_x := 10; m := import \"p\" }; k.m.y",
+    // spellings that demand a directory: on a regular file the read fails with ENOTDIR
+    "m := import \"p/\"; m",
+    "import \"p/.\"",
+    "import \"p//\"",
+    // the file may use functions and modules the importer declared before the import
+    "helper := (v: int) -> int { return v * 2 }; outer_x := helper(4); m := import \"p\"; m.y",
+    "g := (outer_x: int) -> int { k := outer_x + 1; m := import \"p\"; return m.y + k }; (g(1), g(2))",
 ];
 /// forms up to this index import `p` (and possibly `q`) and use at most the members a / s / f
 const LAST_PLAIN_FORM: usize = 9;
@@ -1029,6 +1040,8 @@ fn expected_value(form: usize, p: &str, q: &str) -> Option<&'static str> {
         (15, "uses-importer-name", _) => Some("3"),
         (16, "uses-importer-name", _) => Some("6"),
         (17, "uses-importer-name", _) => Some("11"),
+        (21, "uses-importer-name", _) => Some("9"),
+        (22, "uses-importer-name", _) => Some("(4,6)"),
         _ => None,
     }
 }
@@ -1050,6 +1063,9 @@ fn module_node(state: usize) -> Option<Node> {
         "absent" => None,
         "directory" => Some(Node::Dir),
         "non-utf8" => Some(Node::File(vec![b'a', 0xff, 0xfe])),
+        "utf16le-odd" => Some(Node::File(vec![0xff, 0xfe, 0x61, 0x00, 0x20])),
+        "utf16be-odd" => Some(Node::File(vec![0xfe, 0xff, 0x00])),
+        "utf16le-even" => Some(Node::File(vec![0xff, 0xfe, b'x', 0, b' ', 0, b':', 0, b'=', 0, b' ', 0, b'1', 0])),
         "truncated-utf8-2" => Some(Node::File(b"a := 1 // \xc5".to_vec())),
         "truncated-utf8-3" => Some(Node::File(b"a := \"x\"\n\xe2\x82".to_vec())),
         "truncated-utf8-4" => Some(Node::File(b"\xf0\x9f\x98".to_vec())),
@@ -1098,6 +1114,11 @@ pub fn run_import_case(case: &ImportCase, key_seed: u64) -> RunReport {
                 o.faults.insert(i, FaultSpec { errno: e, torn: 0 });
             }
         }
+        let pre_state = {
+            let mut clean = o.clone();
+            clean.faults.clear();
+            clean
+        };
         os::install(o);
         let interp = Interpreter::with_stdlib();
         let text = IMPORT_FORMS[case.form];
@@ -1148,6 +1169,17 @@ pub fn run_import_case(case: &ImportCase, key_seed: u64) -> RunReport {
             }
             Ok(Ok(code)) => {
                 rep.log.push(format!("{desc} -> Ok"));
+                // the path as written cannot be read (the model's read of that spelling fails on
+                // the initial tree, no fault involved): the program must not be accepted
+                if case.fault.is_none() {
+                    if let Some(lit) = text.split("import \"").nth(1).and_then(|r| r.split('"').next()) {
+                        let mut dry = pre_state.clone();
+                        if let Err(e) = simplesl_verif_seams::fs::model_apply(&mut dry, "read_to_string", &[lit.to_string()]) {
+                            rep.violation = Some(("unreadable-import-accepted".into(), format!("{desc}: reading \"{lit}\" fails ({e}) but the program was accepted")));
+                            return rep;
+                        }
+                    }
+                }
                 // (an implementation may try several paths; what must not happen is acceptance although
                 // the last read - the one whose text would have been the module - failed)
                 if calls.last().is_some_and(|c| matches!(c.result, CallResult::Err(..))) {
